@@ -505,3 +505,9 @@ def evalnode(n, env):
         memo[n.key] = v
         return v
     return go(n)
+
+
+def fn_approx(name, x, pyfunc):
+    """uninterpreted real function node (cos, sin, ...) with an approximate shadow"""
+    x = R.lift(x) if not isinstance(x, R) else x
+    return R(Node('fn', (name, x.n), Fraction(pyfunc(float(x.val)))))
